@@ -40,6 +40,7 @@ class Explorer(object):
         self.check_last = False
         self.decided = {}
         self._keep = []
+        self.unknown_feasibility = 0
 
     def assume(self, e):
         self.assumes.append(e)
@@ -55,7 +56,10 @@ class Explorer(object):
         self.solver_s += time.time() - t
         self.queries += 1
         if r == 'unknown':
-            raise Inconclusive('solver unknown on branch feasibility')
+            # over-approximation: explore the branch.  Obligations on the path are implications from the path
+            # condition, so an infeasible path can only make them vacuous, never wrong.
+            self.unknown_feasibility += 1
+            return True
         return r == 'sat'
 
     def decide(self, cond):
